@@ -87,6 +87,9 @@ func (w *cworld) disarm() []string {
 func openCWorld(c Case, l sim.Layout) *cworld {
 	w := &cworld{c: c, l: l, dir: core.Scratch("faultsc"), failAt: -1}
 	w.cl = sim.NewCluster(w.dir)
+	// lease timing is not what this sweep is about: a primary that is starved of CPU for two seconds (other
+	// checks run beside this one) must not lose its lease in the middle of a commit
+	w.cl.Lease.TTL = 60 * time.Second
 	must := func(err error, what string) {
 		if err != nil {
 			core.Infra("faults cluster setup: %s [%s]: %v", what, c.Key(), err)
@@ -295,6 +298,11 @@ func oneCluster(rep *core.Report, sel Select, c Case, l sim.Layout, k int) {
 	}
 	hit := w.hit
 	if hit == "" {
+		return
+	}
+	if len(w.p.Exits()) > 0 || !w.p.Store.IsPrimary() {
+		// the PRIMARY of this little cluster got into trouble (nothing was injected there): no verdict from this run
+		rep.Note("faults: %s point %d: the primary stopped being primary during the run (exits %v); run discarded", c.Key(), k, w.p.Exits())
 		return
 	}
 	if c.Kind == "cut" {
